@@ -62,6 +62,19 @@ class InterpCore:
         cls = clsname_or_cls if not isinstance(clsname_or_cls, str) else LibClass.get(clsname_or_cls)
         raise Raised(InstV(cls, {"args": (msg,)}), site=self.site(node))
 
+    def may_raise(self, run, exc_name, site, why=""):
+        """A library call that may raise `exc_name` for some run-time values.  When an enclosing `try` (in this frame or a
+        caller's) has a handler for it, the raising case is a path of its own (the handler body must be explored);
+        otherwise it is recorded as a note on the path."""
+        cls = LibClass.get(exc_name)
+        for handlers in reversed(getattr(self, "catch_stack", [])):
+            if any(self.exc_matches(cls, ht) for ht in handlers):
+                if run.decide(("may-raise", exc_name, site), site):
+                    run.emit("raise-site", exc_name, site, why)
+                    raise Raised(InstV(cls, {"args": (why,)}), site=site)
+                return
+        run.emit("may-raise", exc_name, site, why)
+
     def throw_key(self, key, node=None):
         """KeyError as a mapping raises it: args is the missing key itself, not its repr."""
         raise Raised(InstV(LibClass.get("KeyError"), {"args": (key,)}), site=self.site(node))
@@ -314,9 +327,21 @@ class InterpCore:
 
     def exec_try(self, s, env, run):
         n_eff = len(run.effects)
+        if not hasattr(self, "catch_stack"):
+            self.catch_stack = []
+        hts = []
+        for h in s.handlers:
+            try:
+                hts.append(self.ev(h.type, env, run) if h.type is not None else LibClass.get("BaseException"))
+            except (Raised, Limit):
+                pass
         try:
             try:
-                self.exec_block(s.body, env, run)
+                self.catch_stack.append(hts)
+                try:
+                    self.exec_block(s.body, env, run)
+                finally:
+                    self.catch_stack.pop()
             except Raised as r:
                 for h in s.handlers:
                     ht = self.ev(h.type, env, run) if h.type is not None else LibClass.get("BaseException")
@@ -861,6 +886,8 @@ class InterpCore:
             self.throw("AttributeError", f"module {o.name} has no attribute {name}", node)
         if isinstance(o, LibModule):
             return self.lib_attr(o, name, node)
+        if isinstance(o, InstV) and isinstance(o.cls, LibClass) and o.cls.name == "struct.Struct" and name in ("pack", "unpack"):
+            return BoundV(LibFn.get("struct.Struct." + name), o)
         if isinstance(o, InstV):
             if name in o.attrs:
                 return o.attrs[name]
@@ -869,7 +896,7 @@ class InterpCore:
             v = self.class_lookup(o.cls, name)
             if v is not None:
                 return self.bind_descr(v, o, o.cls)
-            if o.cls.flags.get("exception") and name == "add_note":
+            if isinstance(o.cls, ClassV) and o.cls.flags.get("exception") and name == "add_note":
                 return LibFn.get("noop")
             if "_base_value_" in o.attrs:
                 return self.getattr_(o.attrs["_base_value_"], name, run, node)
@@ -986,13 +1013,59 @@ class InterpCore:
         except (Limit, Raised):
             return OpaqueV(f"annotation {ast.unparse(e)[:40]}")
 
+    _LOCALS_CACHE: dict = {}
+
+    def function_locals(self, fnode):
+        """Names bound somewhere in the function body (Python decides 'local' at compile time)."""
+        got = self._LOCALS_CACHE.get(id(fnode))
+        if got is None:
+            names, declared = set(), set()
+            stack = list(getattr(fnode, "body", []))
+            while stack:
+                n = stack.pop()
+                if isinstance(n, (ast.FunctionDef, ast.AsyncFunctionDef, ast.ClassDef)):
+                    names.add(n.name)
+                    continue
+                if isinstance(n, ast.Lambda):
+                    continue
+                if isinstance(n, (ast.Global, ast.Nonlocal)):
+                    declared |= set(n.names)
+                if isinstance(n, ast.Name) and isinstance(n.ctx, (ast.Store, ast.Del)):
+                    names.add(n.id)
+                if isinstance(n, ast.ExceptHandler) and n.name:
+                    names.add(n.name)
+                if isinstance(n, (ast.Import, ast.ImportFrom)):
+                    names |= {(a.asname or a.name).split(".")[0] for a in n.names}
+                if isinstance(n, (ast.ListComp, ast.SetComp, ast.DictComp, ast.GeneratorExp)):
+                    # comprehension targets are local to the comprehension; only its outermost iterable belongs to us
+                    stack.append(n.generators[0].iter)
+                    continue
+                stack.extend(ast.iter_child_nodes(n))
+            got = self._LOCALS_CACHE[id(fnode)] = (frozenset(names - declared), fnode)
+        return got[0]
+
     def lookup_name(self, name, env, node):
         v, e = env.lookup(name)
+        fr = self.frames[-1] if self.frames else None
+        fn = getattr(fr, "fn", None)
+        if fn is not None and isinstance(getattr(fn, "node", None), (ast.FunctionDef, ast.AsyncFunctionDef)) and e is not None and \
+                e.kind != "function" and e is not env and name in self.function_locals(fn.node) and self._env_of_frame(env, fn):
+            # the name is local to the running function but not bound yet: Python does not fall back to the enclosing scope
+            raise Raised(InstV(LibClass.get("UnboundLocalError"), {"args": (f"cannot access local variable {name!r} where it is not "
+                                                                           f"associated with a value",)}), site=self.site(node))
         if e is not None:
             return v
+        if fn is not None and isinstance(getattr(fn, "node", None), (ast.FunctionDef, ast.AsyncFunctionDef)) and \
+                name in self.function_locals(fn.node):
+            raise Raised(InstV(LibClass.get("UnboundLocalError"), {"args": (f"cannot access local variable {name!r} where it is not "
+                                                                           f"associated with a value",)}), site=self.site(node))
         if name in self.builtins:
             return self.builtins[name]
         raise Raised(InstV(LibClass.get("NameError"), {"args": (f"name {name!r} is not defined",)}), site=self.site(node))
+
+    def _env_of_frame(self, env, fn):
+        """True when `env` is the running function's own scope (not a comprehension / class body nested in it)."""
+        return env.kind == "function" and env.owner is fn
 
     def ev(self, e, env, run):
         run.steps += 1
@@ -1079,6 +1152,9 @@ class InterpCore:
                         v = self.ev(x.value, env, run)
                     except Raised:
                         raise
+                    if isinstance(v, InstV) and isinstance(v.attrs.get("_base_value_"), str) and isinstance(v.cls, ClassV) and \
+                            not any(self.class_lookup(v.cls, m) is not None for m in ("__str__", "__format__", "__repr__")):
+                        v = v.attrs["_base_value_"]  # instance of a str subclass without its own formatting
                     if isinstance(v, (str, int)) and not isinstance(v, bool) and x.conversion == -1 and x.format_spec is None:
                         parts.append(str(v))
                     elif isinstance(v, str) and x.conversion == ord("r") and x.format_spec is None:
